@@ -398,6 +398,7 @@ def run(P, R, tier):
     strval_rule(P, R)
     strcopy_rule(P, R)
     putkey_rule(P, R)
+    progkeep_rule(P, R)
     onrecord_rule(P, R)
     R.undecided += ["(e) arithmetic and string results for all programs", "(f) malformed programs produce a BASIC error, never a wrong value or a hang"]
     ens = [e for e in P.enums.values() if e["q"].endswith("BASIC_TOKEN")]
@@ -1055,3 +1056,62 @@ def putkey_rule(P, R):
                                     "keys for values outside that type" % (l[4], ret), file=f["file"], line=w[1], function=f["q"])
     if not n_writer or not n_reader:
         R.anchor_missing(RULE, "key builders not found on both sides (writers %d, readers %d)" % (n_writer, n_reader))
+
+
+def progkeep_rule(P, R):
+    """"the values delivered by PUNCH/SAVE/PRINT equal those of a reference evaluation of the same program": the program is every numbered
+    line of the block.  The block readers collect the lines in a loop that also recognises option lines (-start, -end, -headings) and
+    falls back to the default case after each of them; inside that loop the collected text (rate::commands) may be emptied only once -
+    under a flag that the same block sets, or for a new named definition (RATES, CALCULATE_VALUES read a name first).  An unconditional
+    clear in the default case throws away the lines read before an option line."""
+    RULE = "C17.progkeep"
+    R.rule(RULE, "block readers of BASIC programs: the collected lines are not discarded by a later line of the same definition", minimum=2)
+    n = 0
+    for q in ("Phreeqc::read_user_punch", "Phreeqc::read_user_print"):
+        f = P.one(q)
+        loops = [x for x in T.walk(f["body"]) if x[0] in ("For", "While")]
+        if not loops:
+            R.anchor_missing(RULE, "%s: line loop not found" % q)
+            continue
+        lp = max(loops, key=lambda x: len(str(x)))
+        clears = []
+
+        def visit(node, conds):
+            if not T.is_node(node):
+                return
+            if node[0] == "If":
+                visit(node[3], conds + [node[2]])
+                visit(node[4], conds)
+                return
+            if node[0] == "Call" and T.callee_name(node) == "clear" and T.call_obj(node) is not None and "commands" in T.text(T.call_obj(node)):
+                clears.append((node[1], conds))
+            for c in node[2:]:
+                if isinstance(c, list):
+                    if c and isinstance(c[0], str):
+                        visit(c, conds)
+                    else:
+                        for cc in c:
+                            if isinstance(cc, list) and cc and isinstance(cc[0], str):
+                                visit(cc, conds)
+        visit(lp[-1], [])
+        n += 1
+        inst = q.split("::")[-1]
+        bad = None
+        for line, conds in clears:
+            once = False
+            for c in conds:      # `if (!flag)` with `flag = true` in the guarded block
+                t = T.strip_casts(c)
+                if T.is_node(t) and t[0] == "Un" and t[2] == "!" and T.is_node(T.strip_casts(t[3])) and T.strip_casts(t[3])[0] == "Ref":
+                    flag = T.strip_casts(t[3])[3]
+                    if any(w[0] == "Bin" and w[2] == "=" and T.is_node(T.strip_casts(w[3])) and T.strip_casts(w[3])[0] == "Ref" and T.strip_casts(w[3])[3] == flag
+                           for w in T.walk(lp[-1])):
+                        once = True
+            if not once:
+                bad = line
+        if bad is None:
+            R.ok(RULE, inst, "%d clear(s) of the program text inside the line loop, each under a once-per-block flag" % len(clears))
+        else:
+            R.violation(RULE, inst, "%s empties the collected program text inside its line loop (line %d) without a once-per-block guard: the BASIC lines read before an option "
+                        "line (-headings, -start) are discarded silently" % (inst, bad), file=f["file"], line=bad, function=q)
+    if n < 2:
+        R.anchor_missing(RULE, "readers of USER_PUNCH / USER_PRINT not found")
